@@ -43,6 +43,7 @@ type item struct {
 	seq      int
 	errs     int // consecutive failed attempts
 	failedAt int // effect counter when it last failed
+	deferred bool // straggler: taken up only when nothing else can run (see DeferReplayed)
 }
 
 type slot struct {
@@ -112,6 +113,12 @@ type Sched struct {
 	x        *vstat.Ctx
 	Mode     Mode
 	Drawn    bool // decisions are drawn through x.Choose (else FIFO)
+	// ReverseReplay: after a crash the work the restarted watchers replay is taken up newest first
+	// (once; FIFO from there on). The real replay order is a map iteration order: both are legal.
+	ReverseReplay bool
+	// DeferReplayed >= 0: the n-th work item replayed after a crash is a straggler: it is taken up only when
+	// nothing else can run (its partition's worker was slow to start or sits in a retry back-off).
+	DeferReplayed int
 	ctls     []*ctl
 	watchers []*watcherRun
 	seq      int
@@ -163,7 +170,7 @@ func (s *Sched) Current() *StepCtx { return s.cur }
 func (s *Sched) DecisionsDrawn() int { return s.decisionsDrawn }
 
 func newSched(w *World, x *vstat.Ctx) *Sched {
-	return &Sched{w: w, x: x, CrashAt: -1, Budget: 6000, MaxIdleRetries: 2, MaxInflight: map[string]int{}}
+	return &Sched{w: w, x: x, CrashAt: -1, DeferReplayed: -1, Budget: 6000, MaxIdleRetries: 2, MaxInflight: map[string]int{}}
 }
 
 // Effects returns the number of effect points passed so far.
@@ -415,6 +422,9 @@ func (s *Sched) enqueueSlot(sl *slot, id controller.ID) {
 	}
 	s.seq++
 	sl.pending = append(sl.pending, &item{id: id, seq: s.seq})
+	if vstat.Tracing() {
+		s.x.Logf("      enqueue %s[%s] %s (seq %d)", sl.c.name, sl.part, s.idStr(id), s.seq)
+	}
 }
 
 // ---------------------------------------------------------------------------
@@ -475,7 +485,22 @@ func (s *Sched) candidates() []cand {
 		sort.SliceStable(tasks, func(i, j int) bool { return tasks[i].t.seq < tasks[j].t.seq })
 		sort.SliceStable(items, func(i, j int) bool { return items[i].it.seq < items[j].it.seq })
 	}
-	out := append(tasks, items...)
+	// stragglers run only when nothing else can
+	var normal, late []cand
+	for _, c := range items {
+		if c.it.deferred {
+			late = append(late, c)
+		} else {
+			normal = append(normal, c)
+		}
+	}
+	if len(tasks)+len(normal) == 0 {
+		for _, c := range late {
+			c.it.deferred = false
+		}
+		normal = late
+	}
+	out := append(tasks, normal...)
 	return out
 }
 
@@ -780,10 +805,49 @@ func (s *Sched) restart() error {
 	if err := s.startWatchers(); err != nil {
 		return err
 	}
+	if s.ReverseReplay || s.DeferReplayed >= 0 {
+		if err := s.settle(); err != nil {
+			return err
+		}
+		if s.DeferReplayed >= 0 && s.Crashes == 1 {
+			if all := s.allPending(); s.DeferReplayed < len(all) {
+				all[s.DeferReplayed].deferred = true
+				s.x.Logf("  (straggler after the crash: %s)", s.idStr(all[s.DeferReplayed].id))
+			}
+		}
+		if s.ReverseReplay {
+			s.reversePending()
+		}
+	}
 	if s.OnRestart != nil {
 		s.OnRestart()
 	}
 	return nil
+}
+
+// allPending returns every queued item in arrival order.
+func (s *Sched) allPending() []*item {
+	var all []*item
+	for _, c := range s.ctls {
+		for _, sl := range c.slots {
+			all = append(all, sl.pending...)
+		}
+	}
+	sort.Slice(all, func(i, j int) bool { return all[i].seq < all[j].seq })
+	return all
+}
+
+// reversePending reverses the order in which the currently queued items will be taken up (FIFO mode).
+func (s *Sched) reversePending() {
+	all := s.allPending()
+	for i, j := 0, len(all)-1; i < j; i, j = i+1, j-1 {
+		all[i].seq, all[j].seq = all[j].seq, all[i].seq
+	}
+	for _, c := range s.ctls {
+		for _, sl := range c.slots {
+			sort.SliceStable(sl.pending, func(i, j int) bool { return sl.pending[i].seq < sl.pending[j].seq })
+		}
+	}
 }
 
 // stop ends all watchers (end of a case).
